@@ -267,6 +267,11 @@ _public_ int m_mod_ps_subscribe(m_mod_t *mod, const char *topic, m_src_flags fla
                     old_sub->userptr = userptr;
                     return 0;
                 }
+                /*
+                 * Drop old subscription: it owns the (possibly dupped) topic string
+                 * that is used as key in the map, thus it cannot just be overwritten.
+                 */
+                m_map_remove(mod->subscriptions, topic);
             }
         }
 
